@@ -112,6 +112,35 @@ def h_shift_xx(ctx, naming, hapx, is_xx):
     ctx.cover("reached")
 
 
+def h_shift_inferred(ctx, hapx, genome):
+    """shift_xx with the sex left to be inferred: the inference itself is statistical (not covered), but
+    it must be asked the right question -- the reference sex and PAR genome are forwarded to guess_xx --
+    and its answer decides the shift."""
+    from cnvlib.cnary import CopyNumArray as CNA
+
+    chroms = ["chr1", "chrX", "chrY"]
+    logs = [ctx.real(f"l{i}", -10, 10) for i in range(3)]
+    cna = make_cna({"chromosome": chroms, "start": [1, 3000000, 3000000], "end": [50, 3000100, 3000100], "gene": ["g"] * 3, "log2": list(logs)})
+    seen = []
+    answer = bool(ctx.choice("guess", [0, 1]))
+
+    def spy(self, is_haploid_x_reference=False, diploid_parx_genome=None, verbose=True):
+        seen.append((is_haploid_x_reference, diploid_parx_genome))
+        return answer
+
+    real = CNA.guess_xx
+    CNA.guess_xx = spy
+    try:
+        out = cna.shift_xx(hapx, None, genome)
+    finally:
+        CNA.guess_xx = real
+    ctx.claim(seen == [(hapx, genome)], "shift_xx asks guess_xx about the stated reference sex and PAR genome")
+    level = (1 if answer else 0) if hapx else (0 if answer else -1)
+    got = col(out, "log2")
+    ctx.claim(And(approx(got[1], logs[1] - level), approx(got[0], logs[0]), approx(got[2], logs[2])), "the inferred sex decides the chrX shift")
+    ctx.cover("reached")
+
+
 def h_flat(ctx, naming, hapx, genome, symrow):
     pre = "chr" if naming == "chr" else ""
     chroms = [pre + "1", pre + "X", pre + "Y"]
@@ -177,6 +206,7 @@ def _center_cfgs():
 HARNESSES = [
     Harness("center_all", h_center, _center_cfgs(), covers=["reached", "null-coverage bin ignored", "PAR-X counted as autosomal"], wall_s=240, thorough_wall_s=1200),
     Harness("shift_xx", h_shift_xx, [{"naming": nm, "hapx": h, "is_xx": x} for nm in ("chr", "plain") for h in (False, True) for x in (False, True)], covers=["reached"]),
+    Harness("shift_xx_inferred", h_shift_inferred, [{"hapx": h, "genome": g} for h in (False, True) for g in (None, "grch38")], covers=["reached"]),
     Harness(
         "expect_flat_log2",
         h_flat,
